@@ -116,6 +116,28 @@ pub(crate) fn check_suppressed_by_answer(my_ttl: u32, ka_ttl: u32, a: u32, b: u3
     }
 }
 
+/// Simultaneous-probe comparison core (RFC 6762 8.2) on address records with fixed names: class first, then
+/// type, then RDATA; and both sides reach opposite verdicts.
+pub(crate) fn check_compare_address(class_a: u16, class_b: u16, a6: bool, b6: bool, ip_a: u32, ip_b: u32) {
+    let mk = |class: u16, v6: bool, ip: u32| {
+        let (ty, addr) = if v6 { (RRType::AAAA, IpAddr::V6(Ipv6Addr::from(ip as u128))) } else { (RRType::A, IpAddr::V4(Ipv4Addr::from(ip))) };
+        DnsAddress::new("h.local.", ty, class, 120, addr, InterfaceId::default())
+    };
+    let a = mk(class_a, a6, ip_a);
+    let b = mk(class_b, b6, ip_b);
+    let ab = a.compare(&b);
+    let ba = b.compare(&a);
+    assert!(ab == ba.reverse()); // opposite verdicts
+    let (ca, cb) = (class_a & 0x7FFF, class_b & 0x7FFF); // cache-flush bit excluded
+    if ca != cb {
+        assert!(ab == ca.cmp(&cb));
+    } else if a6 != b6 {
+        assert!(ab == (if a6 { cmp::Ordering::Greater } else { cmp::Ordering::Less })); // AAAA (28) > A (1)
+    } else {
+        assert!(ab == ip_a.cmp(&ip_b));
+    }
+}
+
 #[cfg(kani)]
 mod proofs {
     use super::*;
@@ -130,5 +152,6 @@ mod proofs {
     #[kani::proof] fn kani_reset_ttl() { check_reset_ttl(kani::any(), kani::any(), kani::any(), kani::any()); }
     #[kani::proof] fn kani_remaining_ttl_bounded() { check_remaining_ttl(kani::any(), kani::any(), kani::any()); }
     #[kani::proof] fn kani_dns_entry_new() { check_dns_entry_new(kani::any()); }
+    #[kani::proof] #[kani::unwind(10)] #[kani::stub(crate::current_time_millis, stub_now)] fn kani_compare_address() { check_compare_address(kani::any(), kani::any(), kani::any(), kani::any(), kani::any(), kani::any()); }
     #[kani::proof] #[kani::unwind(10)] #[kani::stub(crate::current_time_millis, stub_now)] fn kani_suppressed_by_answer() { check_suppressed_by_answer(kani::any(), kani::any(), kani::any(), kani::any()); }
 }
